@@ -105,7 +105,8 @@ func processAllClients(op func(id int64, cs *clientState)) {
 	defer simAfterUnlock(&clientsMu, "clientsMu")
 	defer clientsMu.Unlock()
 
-	for id, cs := range clients {
+	for _, id := range simKeys(clients, func(a, b int64) bool { return a < b }) {
+		cs := clients[id]
 		if !cs.client.IsCloseRequested() {
 			op(id, cs)
 		}
